@@ -28,10 +28,11 @@ Theorem C02_simply_typed_sound : forall farith fneg fcmp of_int scmp e t,
 Proof. exact SoundE0.simply_typed_sound. Qed.
 
 (* The full statement - every accepted program without externals runs without a dynamic type error - is
-   not proved, and it is FALSE of the model as it is of the code: the two programs below are accepted by the
-   type checker (here: by the model, on the real compiler's own resolved statements) and fail at run time with
-   a dynamic type error when the real emitted Lua is run (replayed by the check: known findings
-   C02-fn-param-reinstantiated, C02-type-name-as-value). *)
+   not proved, and it is FALSE of the model as it is of the code: the first program below is accepted by the
+   type checker (here: by the model, on the real compiler's own resolved statements) and fails at run time with
+   a dynamic type error when the real emitted Lua is run (replayed by the check: known finding
+   C02-fn-param-reinstantiated).  The second program below was such a witness too (C02-type-name-as-value) until
+   /repo 9c09349: the name of a blob or an enum is no longer a value, the program is rejected. *)
 Definition C02_full_statement := SoundE0.C02_full_statement.
 
 (*
@@ -63,8 +64,9 @@ Definition type_name_as_value_program : resolved :=
   [(mkVar 0%N "A" (mkSpan 0 1 1 1 2) true Const); (mkVar 1%N "start" (mkSpan 0 2 2 1 6) true Const); (mkVar 2%N "== STACK BEGIN ""start"" ==" (mkSpan 0 2 2 1 6) false Const)]
   [(SBlob "A" 0%N (mkSpan 0 1 1 1 2) [] [("a", ((mkSpan 0 1 1 13 14), (TResolved BInt (mkSpan 0 1 1 16 19))))] false); (SDefinition "start" 1%N Const (TImplied (mkSpan 0 4 4 4 5)) (EFunction "lambda" [] (TResolved BVoid (mkSpan 0 2 2 13 15)) [(SAssignment Nop (EBlobAccess (ERead 0%N (mkSpan 0 3 3 5 6)) "a" (mkSpan 0 3 3 7 8)) (EInt (3)%Z (mkSpan 0 3 3 11 12)) (mkSpan 0 3 3 5 6))] false (mkSpan 0 2 2 10 12)) (mkSpan 0 2 2 1 6))]).
 
-Theorem C02_refuted_type_name_as_value : exists fuel, typecheck fuel type_name_as_value_program = Ok tt.
-Proof. exists 80. vm_compute. reflexivity. Qed.
+Theorem C02_type_name_as_value_rejected :
+  typecheck 80 type_name_as_value_program = Err (mkErr KExotic (mkSpan 0 3 3 5 6)) [].
+Proof. vm_compute. reflexivity. Qed.
 
 (* ---- non-vacuity of C02_E0: (1 + 2 < 4) and not false, accepted, evaluates to a bool *)
 Definition sp0 : span := mkSpan 0 1 1 1 2.
@@ -92,7 +94,7 @@ Print Assumptions C02_E0.
 Print Assumptions C02_accepted_simply_typed.
 Print Assumptions C02_simply_typed_sound.
 Print Assumptions C02_refuted_reinstantiated_param.
-Print Assumptions C02_refuted_type_name_as_value.
+Print Assumptions C02_type_name_as_value_rejected.
 
 (* ---- source tie: the hand-written model behind these theorems mirrors the files below; the digests of their
    functions regenerated from /repo on this run equal the reviewed ones (coq/Doc/DocSrcDigest.v).  Any edit of
